@@ -284,12 +284,18 @@ Definition reopen_bf (cm : cmeta) (bf : bfile) : bfile :=
 (** * Histories.  [full = true]: driven through [ledger.Ledger] (PersistBlockData,
     Ledger.Rollback = state first, then chain; reopen = ledger.New);  [full = false]: the
     chain ledger alone (PersistExecutionResult, RollbackBlockChain, NewChainLedgerImpl). *)
-Inductive op := OPersist (e : entry) | ORollback (t : N) | OReopen.
+(** [OReexec e]: the executor is handed a block whose number k is NOT head+1 (consensus
+    re-delivers a different block for an already executed height): [rollbackBlocks] rolls the
+    ledger back to k-1 ([Ledger.Rollback (old.Height()-1)]) and the block is executed and
+    persisted on top of block k-1 (executor/handle.go processExecuteEvent). *)
+Inductive op := OPersist (e : entry) | ORollback (t : N) | OReopen | OReexec (e : entry).
 
 (** step result codes: persist 0 ok / 9 out-of-order (not executed: the process would die);
-    rollback 0,1,2,3 as above; reopen 0 *)
-Definition step (cfg : Defects) (full : bool) (o : op) (s : cledger) : N * cledger :=
+    rollback 0,1,2,3 as above; reopen 0; re-execution: 0, the rollback's refusal code (the
+    executor panics on it), 11 when there is no block of that number to replace *)
+Definition step_base (cfg : Defects) (full : bool) (o : op) (s : cledger) : N * cledger :=
   match o with
+  | OReexec _ => (11, s)
   | OPersist e =>
       match persist_chain e s with
       | None => (9, s)
@@ -310,6 +316,17 @@ Definition step (cfg : Defects) (full : bool) (o : op) (s : cledger) : N * cledg
          is a no-op on both sides while state and chain move in lockstep *)
       (0, mkCL (reopen_bf (load_meta (cl_ix s)) (cl_bf s)) (cl_ix s) (load_meta (cl_ix s))
                (if full then jw_reopen (cl_jw s) else cl_jw s))
+  end.
+Definition step (cfg : Defects) (full : bool) (o : op) (s : cledger) : N * cledger :=
+  match o with
+  | OReexec e =>
+      let k := h_number (b_hdr (e_blk e)) in
+      if (k =? 0) || (cm_height (cl_mem s) <? k) then (11, s)
+      else match step_base cfg full (ORollback (k - 1)) s with
+           | (0, s') => step_base cfg full (OPersist e) s'
+           | (c, _) => (c, s)
+           end
+  | _ => step_base cfg full o s
   end.
 
 Fixpoint run (cfg : Defects) (full : bool) (ops : list op) (s : cledger) : cledger :=
@@ -536,6 +553,7 @@ Definition spec_step (o : op) (code : N) (sp : spec) : spec :=
   match o, code with
   | OPersist e, 0 => sp ++ [e]
   | ORollback t, 0 => firstn (N.to_nat t) sp
+  | OReexec e, 0 => firstn (N.to_nat (h_number (b_hdr (e_blk e)) - 1)) sp ++ [e]
   | _, _ => sp
   end.
 (** which result codes the property allows: a persist of a well-formed entry is accepted; a
@@ -546,6 +564,7 @@ Definition code_ok (o : op) (code : N) (sp : spec) : bool :=
   | OPersist _ => code =? 0
   | ORollback t => if code =? 0 then t <=? tlen sp else if code =? 1 then tlen sp <? t else code =? 2
   | OReopen => code =? 0
+  | OReexec _ => (code =? 0) || (code =? 2)
   end.
 
 (** * Oracle instances of the two hash functions for running (tables produced by the driver
@@ -577,7 +596,13 @@ Fixpoint prop_trace (hh : header -> N) (rt : list N -> N) (strict : bool) (U : u
   match ops, tr with
   | [], [] => V_ok
   | o :: ro, (code, ob) :: rtr =>
-      let wf' := match o with OPersist e => wf && wf_entry_b hh rt sp e | _ => wf end in
+      let wf' := match o with
+                 | OPersist e => wf && wf_entry_b hh rt sp e
+                 | OReexec e =>
+                     let k := h_number (b_hdr (e_blk e)) in
+                     wf && (1 <=? k) && (k <=? tlen sp) && wf_entry_b hh rt (firstn (N.to_nat (k - 1)) sp) e
+                 | _ => wf
+                 end in
       let sp' := spec_step o code sp in
       if negb wf' then (if strict then V_propfalse i else V_ok)
       else if negb (code_ok o code sp) then V_propfalse i
@@ -595,6 +620,7 @@ Fixpoint model_trace (cfg : Defects) (full : bool) (U : universe)
       let '(c, s') := step cfg full o s in
       let lockstep := match o with
                       | OPersist e => negb full || (h_number (b_hdr (e_blk e)) =? cm_height (cl_mem s) + 1)
+                      | OReexec e => (1 <=? h_number (b_hdr (e_blk e))) && (h_number (b_hdr (e_blk e)) <=? cm_height (cl_mem s))
                       | _ => true
                       end in
       if negb lockstep then V_domain i     (* full mode is modelled for well-numbered blocks only *)
